@@ -133,7 +133,7 @@ variable {K : Type} [Field K] [DecidableEq K]
 /-- a surface-error map is zero outside its mask -/
 theorem power_spectrum_zero_outside_mask (sqrt : K → K) (rms : K) (mask : Nat → K) (x : Int → Nat → K) (seed : Int) (n i : Nat)
     (hm : mask i = 0) : powerSpectrum (fun y => decide (y ≠ 0)) sqrt (· / ·) (fun k => (k : K)) rms mask x seed n i = 0 := by
-  simp [powerSpectrum, hm]
+  simp [powerSpectrum, Gen.psMaskStep, Gen.psNormalise, hm]
 
 /-- … with exactly the requested RMS over its non-zero pixels: the mean square over them is `rms²`, for every mask shape
 (`rms(x·s) = target` for `s = target/rms(x)`). `sqrt` contract as hypothesis; `hS`: the masked noise is not identically 0. -/
@@ -142,7 +142,7 @@ theorem power_spectrum_rms_exact [LinearOrder K] [IsStrictOrderedRing K] (sqrt :
     (hS : (∑ i ∈ range n, (x seed i * mask i) * (x seed i * mask i)) ≠ 0) :
     (∑ i ∈ range n, powerSpectrum (fun y => decide (y ≠ 0)) sqrt (· / ·) (fun k => (k : K)) rms mask x seed n i ^ 2)
       = (countNonzero (fun y => decide (y ≠ 0)) n (fun i => x seed i * mask i) : K) * rms ^ 2 := by
-  simp only [powerSpectrum, sumRange_eq_sum]
+  simp only [powerSpectrum, Gen.psMaskStep, Gen.psNormalise, sumRange_eq_sum]
   set S := ∑ i ∈ range n, (x seed i * mask i) * (x seed i * mask i) with hSdef
   set c : K := (countNonzero (fun y => decide (y ≠ 0)) n (fun i => x seed i * mask i) : K)
   have hSpos : 0 ≤ S := Finset.sum_nonneg fun i _ => mul_self_nonneg _
@@ -187,7 +187,7 @@ theorem power_spectrum_rms_over_mask [LinearOrder K] [IsStrictOrderedRing K] (sq
 theorem power_spectrum_homogeneous (sqrt : K → K) (rms k : K) (mask : Nat → K) (x : Int → Nat → K) (seed : Int) (n i : Nat) :
     powerSpectrum (fun y => decide (y ≠ 0)) sqrt (· / ·) (fun k => (k : K)) (k * rms) mask x seed n i
       = k * powerSpectrum (fun y => decide (y ≠ 0)) sqrt (· / ·) (fun k => (k : K)) rms mask x seed n i := by
-  simp only [powerSpectrum]; ring
+  simp only [powerSpectrum, Gen.psMaskStep, Gen.psNormalise]; ring
 
 /-- once a map has mean square `rms²` over its `c` non-zero pixels, normalising it again multiplies it by exactly 1 — the
 normalisation the code applies is a projection (this is what the correspondence op `st.power` checks on the returned map) -/
